@@ -85,13 +85,12 @@ MANUAL = [
     ("C13", "names_collide_after_cleanup", r"(roundtrip:different_computation:.*|text_not_python:(any|skip_initializers):SyntaxError|roundtrip:not_executable:.*)",
      "value names that become the same identifier after clean-up ('a.b' and 'a_b'): duplicate argument or one variable shadowing the other"),
     ("C13", "skip_initializers_random_weights_unsupported_dtype", r"export_raises:NotImplementedError@onnx_export.py:generate_rand", "skip_initializers=True with a non-float32 initializer: NotImplementedError from the random-weights generator"),
-    ("C13", "rename_option_loses_graph_inputs", r"text_not_executable:ValueError:Unbound name", "rename=True renames uses (v2) but the signature keeps the original input names"),
     ("C13", "inline_const_drops_still_referenced_definition", r"text_not_executable:ValueError:Unbound name", "inline_const=True drops Constant/initializer definitions that are still referenced by name (Loop trip count, initializers whose names need clean-up)"),
     ("C13", "inline_const_empty_list", r"text_not_executable:TranslationError:.*", "inline_const=True renders an empty 1-D constant as [], which the converter cannot type"),
     ("C13", "if_with_unused_outputs", r"text_not_executable:TranslationError:.*", "an If node whose outputs are all unused is exported as an `if` assigning dead variables, which the converter refuses"),
     ("C13", "python_constants_need_castlike_before_opset15", r"roundtrip:not_executable:.*", "inline_const=True / skip_initializers=True on a model with opset < 15: the Python constants are typed by the converter with CastLike, which opset 13/14 do not have"),
     ("C13", "use_operators_body_without_opset_call", r"text_not_executable:RuntimeError:default_opset.*", "use_operators=True on a function or graph made only of operator nodes: the emitted @script() has no default_opset and the decorator raises"),
-    ("C13", "function_attribute_default_not_exported", r"text_not_executable:ValueError:Unbound name", "a model-local function with attribute parameters that have defaults (FunctionProto.attribute_proto): the defaults are 'not handled yet', the parameter is dropped from the signature and its uses are unbound"),
+    ("C13", "function_attribute_default_not_exported", r"text_not_executable:(ValueError:Unbound name|TypeError:Unexpected keyword.*)", "a model-local function with attribute parameters that have defaults (FunctionProto.attribute_proto): the defaults are 'not handled yet', the parameter is dropped from the signature and its uses are unbound"),
     ("C13", "loop_with_condition_break_first", r"text_not_executable:TranslationError:.*", "Loop with a condition input is exported as `for ...: if not cond: break` with the break first, which the converter refuses"),
     ("C15", "optimize_renames_constant_tensor_of_argument", r"argument_mutated:optimize", "optimize(ModelProto) mutates its argument: the TensorProto of Constant 'value' attributes is shared with the IR and renamed"),
     ("C15", "convert_version_proto_drops_metadata", r"lost:(graph|node)\.metadata_props:convert_version", "convert_version(ModelProto) copies only the graph back: graph/node metadata_props are lost"),
